@@ -248,6 +248,41 @@ Proof. vm_compute. reflexivity. Qed.
 Example C05F_enum_two_rejected : de nore nore T_enum 20 2%N v_enum_two = None.
 Proof. vm_compute. reflexivity. Qed.
 
+(* ------------------------------------------------------------------ internally / adjacently tagged enums
+   (corpus/convert/enum_tagged_example.json, T_tag = the REAL type space): here [viol] speaks - a tag value that
+   no branch pins is a violation (V_tag), so the rejection comes from the theorem *)
+Definition D_tag : defs := [([69; 118]%N, (SObj None None None None (mkNumv None None None None None) (mkStrv None None None) ItemsAbsent (@nil schema) None None None false (@nil (ustring * schema)) (@nil ustring) None None None None None (Some [(SObj (Some [TObject]) None None None (mkNumv None None None None None) (mkStrv None None None) ItemsAbsent (@nil schema) None None None false [([97; 116]%N, (SObj (Some [TInteger]) None None None (mkNumv None None None None None) (mkStrv None None None) ItemsAbsent (@nil schema) None None None false (@nil (ustring * schema)) (@nil ustring) None None None None None None None None None None)); ([116; 97; 103; 103]%N, (SObj (Some [TString]) None (Some [(JStr [115; 116; 97; 114; 116]%N)]) None (mkNumv None None None None None) (mkStrv None None None) ItemsAbsent (@nil schema) None None None false (@nil (ustring * schema)) (@nil ustring) None None None None None None None None None None)); ([119; 104; 111]%N, (SObj (Some [TString]) None None None (mkNumv None None None None None) (mkStrv None None None) ItemsAbsent (@nil schema) None None None false (@nil (ustring * schema)) (@nil ustring) None None None None None None None None None None))] [[97; 116]%N; [116; 97; 103; 103]%N] (Some (SBool false)) None None None None None None None None None); (SObj (Some [TObject]) None None None (mkNumv None None None None None) (mkStrv None None None) ItemsAbsent (@nil schema) None None None false [([116; 97; 103; 103]%N, (SObj (Some [TString]) None (Some [(JStr [115; 116; 111; 112]%N)]) None (mkNumv None None None None None) (mkStrv None None None) ItemsAbsent (@nil schema) None None None false (@nil (ustring * schema)) (@nil ustring) None None None None None None None None None None))] [[116; 97; 103; 103]%N] (Some (SBool false)) None None None None None None None None None); (SObj (Some [TObject]) None None None (mkNumv None None None None None) (mkStrv None None None) ItemsAbsent (@nil schema) None None None false [([115; 117; 98]%N, (SObj None None None None (mkNumv None None None None None) (mkStrv None None None) ItemsAbsent (@nil schema) None None None false (@nil (ustring * schema)) (@nil ustring) None None None None None None None (Some [80]%N) None None)); ([116; 97; 103; 103]%N, (SObj (Some [TString]) None (Some [(JStr [110; 111; 116; 101; 45; 105; 116]%N)]) None (mkNumv None None None None None) (mkStrv None None None) ItemsAbsent (@nil schema) None None None false (@nil (ustring * schema)) (@nil ustring) None None None None None None None None None None)); ([116; 101; 120; 116]%N, (SObj (Some [TString]) None None None (mkNumv None None None None None) (mkStrv (Some 5%N) None None) ItemsAbsent (@nil schema) None None None false (@nil (ustring * schema)) (@nil ustring) None None None None None None None None None None))] [[115; 117; 98]%N; [116; 97; 103; 103]%N; [116; 101; 120; 116]%N] (Some (SBool false)) None None None None None None None None None)]) None None None None)); ([77; 115; 103]%N, (SObj None None None None (mkNumv None None None None None) (mkStrv None None None) ItemsAbsent (@nil schema) None None None false (@nil (ustring * schema)) (@nil ustring) None None None None None (Some [(SObj (Some [TObject]) None None None (mkNumv None None None None None) (mkStrv None None None) ItemsAbsent (@nil schema) None None None false [([99]%N, (SObj (Some [TString]) None None None (mkNumv None None None None None) (mkStrv None None None) ItemsAbsent (@nil schema) None None None false (@nil (ustring * schema)) (@nil ustring) None None None None None None None None None None)); ([116]%N, (SObj (Some [TString]) None (Some [(JStr [116; 101; 120; 116]%N)]) None (mkNumv None None None None None) (mkStrv None None None) ItemsAbsent (@nil schema) None None None false (@nil (ustring * schema)) (@nil ustring) None None None None None None None None None None))] [[99]%N; [116]%N] (Some (SBool false)) None None None None None None None None None); (SObj (Some [TObject]) None None None (mkNumv None None None None None) (mkStrv None None None) ItemsAbsent (@nil schema) None None None false [([99]%N, (SObj (Some [TObject]) None None None (mkNumv None None None None None) (mkStrv None None None) ItemsAbsent (@nil schema) None None None false [([120]%N, (SObj (Some [TInteger]) None None None (mkNumv None None None None None) (mkStrv None None None) ItemsAbsent (@nil schema) None None None false (@nil (ustring * schema)) (@nil ustring) None None None None None None None None None None)); ([121]%N, (SObj (Some [TInteger]) None None None (mkNumv None None None None None) (mkStrv None None None) ItemsAbsent (@nil schema) None None None false (@nil (ustring * schema)) (@nil ustring) None None None None None None None None None None))] [[120]%N; [121]%N] (Some (SBool false)) None None None None None None None None None)); ([116]%N, (SObj (Some [TString]) None (Some [(JStr [112; 111; 105; 110; 116]%N)]) None (mkNumv None None None None None) (mkStrv None None None) ItemsAbsent (@nil schema) None None None false (@nil (ustring * schema)) (@nil ustring) None None None None None None None None None None))] [[99]%N; [116]%N] (Some (SBool false)) None None None None None None None None None); (SObj (Some [TObject]) None None None (mkNumv None None None None None) (mkStrv None None None) ItemsAbsent (@nil schema) None None None false [([99]%N, (SObj (Some [TArray]) None None None (mkNumv None None None None None) (mkStrv None None None) ItemsTuple [(SObj (Some [TString]) None None None (mkNumv None None None None None) (mkStrv None None None) ItemsAbsent (@nil schema) None None None false (@nil (ustring * schema)) (@nil ustring) None None None None None None None None None None); (SObj (Some [TBoolean]) None None None (mkNumv None None None None None) (mkStrv None None None) ItemsAbsent (@nil schema) None None None false (@nil (ustring * schema)) (@nil ustring) None None None None None None None None None None)] None (Some 2%N) (Some 2%N) false (@nil (ustring * schema)) (@nil ustring) None None None None None None None None None None)); ([116]%N, (SObj (Some [TString]) None (Some [(JStr [112; 97; 105; 114]%N)]) None (mkNumv None None None None None) (mkStrv None None None) ItemsAbsent (@nil schema) None None None false (@nil (ustring * schema)) (@nil ustring) None None None None None None None None None None))] [[99]%N; [116]%N] (Some (SBool false)) None None None None None None None None None); (SObj (Some [TObject]) None None None (mkNumv None None None None None) (mkStrv None None None) ItemsAbsent (@nil schema) None None None false [([116]%N, (SObj (Some [TString]) None (Some [(JStr [112; 105; 110; 103]%N)]) None (mkNumv None None None None None) (mkStrv None None None) ItemsAbsent (@nil schema) None None None false (@nil (ustring * schema)) (@nil ustring) None None None None None None None None None None))] [[116]%N] (Some (SBool false)) None None None None None None None None None)]) None None None None)); ([80]%N, (SObj (Some [TObject]) None None None (mkNumv None None None None None) (mkStrv None None None) ItemsAbsent (@nil schema) None None None false [([122]%N, (SObj (Some [TBoolean]) None None None (mkNumv None None None None None) (mkStrv None None None) ItemsAbsent (@nil schema) None None None false (@nil (ustring * schema)) (@nil ustring) None None None None None None None None None None))] [[122]%N] None None None None None None None None None None)); ([84; 111; 112]%N, (SObj (Some [TObject]) None None None (mkNumv None None None None None) (mkStrv None None None) ItemsAbsent (@nil schema) None None None false [([101; 118]%N, (SObj None None None None (mkNumv None None None None None) (mkStrv None None None) ItemsAbsent (@nil schema) None None None false (@nil (ustring * schema)) (@nil ustring) None None None None None None None (Some [69; 118]%N) None None)); ([109; 115; 103; 115]%N, (SObj (Some [TArray]) None None None (mkNumv None None None None None) (mkStrv None None None) ItemsSingle [(SObj None None None None (mkNumv None None None None None) (mkStrv None None None) ItemsAbsent (@nil schema) None None None false (@nil (ustring * schema)) (@nil ustring) None None None None None None None (Some [77; 115; 103]%N) None None)] None None None false (@nil (ustring * schema)) (@nil ustring) None None None None None None None None None None))] [[101; 118]%N; [109; 115; 103; 115]%N] None None None None None None None None None None))].
+Definition T_tag : space := (mkSpace [(1%N, (mkEntry (DEnum [69; 118]%N None (TagInternal [116; 97; 103; 103]%N) [(mkVariant [115; 116; 97; 114; 116]%N [83; 116; 97; 114; 116]%N (VStruct [(mkProp [97; 116]%N RNone PRequired 5%N); (mkProp [119; 104; 111]%N RNone POptional 7%N)])); (mkVariant [115; 116; 111; 112]%N [83; 116; 111; 112]%N VSimple); (mkVariant [110; 111; 116; 101; 45; 105; 116]%N [78; 111; 116; 101; 73; 116]%N (VStruct [(mkProp [115; 117; 98]%N RNone PRequired 3%N); (mkProp [116; 101; 120; 116]%N RNone PRequired 8%N)]))] true (@nil bespoke)) (@nil ustring))); (2%N, (mkEntry (DEnum [77; 115; 103]%N None (TagAdjacent [116]%N [99]%N) [(mkVariant [116; 101; 120; 116]%N [84; 101; 120; 116]%N (VItem 6%N)); (mkVariant [112; 111; 105; 110; 116]%N [80; 111; 105; 110; 116]%N (VStruct [(mkProp [120]%N RNone PRequired 5%N); (mkProp [121]%N RNone PRequired 5%N)])); (mkVariant [112; 97; 105; 114]%N [80; 97; 105; 114]%N (VTuple [6%N; 9%N])); (mkVariant [112; 105; 110; 103]%N [80; 105; 110; 103]%N VSimple)] true (@nil bespoke)) (@nil ustring))); (3%N, (mkEntry (DStruct [80]%N None [(mkProp [122]%N RNone PRequired 9%N)] false) (@nil ustring))); (4%N, (mkEntry (DStruct [84; 111; 112]%N None [(mkProp [101; 118]%N RNone PRequired 1%N); (mkProp [109; 115; 103; 115]%N RNone PRequired 10%N)] false) (@nil ustring))); (5%N, (mkEntry (DInteger [105; 54; 52]%N) (@nil ustring))); (6%N, (mkEntry DString (@nil ustring))); (7%N, (mkEntry (DOption 6%N) (@nil ustring))); (8%N, (mkEntry (DNewtype [69; 118; 84; 101; 120; 116]%N None 6%N (CString (Some 5%N) None None)) (@nil ustring))); (9%N, (mkEntry DBoolean (@nil ustring))); (10%N, (mkEntry (DVec 2%N) (@nil ustring)))] 11%N (mkSettings None (@nil ustring) false [58; 58; 32; 115; 116; 100; 32; 58; 58; 32; 99; 111; 108; 108; 101; 99; 116; 105; 111; 110; 115; 32; 58; 58; 32; 72; 97; 115; 104; 77; 97; 112]%N) false false false false (@nil ustring)).
+Definition v_tag_good : json := (JObj [([101; 118]%N, (JObj [([97; 116]%N, (JInt (3)%Z)); ([116; 97; 103; 103]%N, (JStr [115; 116; 97; 114; 116]%N))])); ([109; 115; 103; 115]%N, (JArr [(JObj [([99]%N, (JStr [104; 105]%N)); ([116]%N, (JStr [116; 101; 120; 116]%N))]); (JObj [([99]%N, (JObj [([120]%N, (JInt (1)%Z)); ([121]%N, (JInt (2)%Z))])); ([116]%N, (JStr [112; 111; 105; 110; 116]%N))]); (JObj [([99]%N, (JArr [(JStr [97]%N); (JBool true)])); ([116]%N, (JStr [112; 97; 105; 114]%N))]); (JObj [([116]%N, (JStr [112; 105; 110; 103]%N))])]))]).
+Definition v_tag_bogus : json := (JObj [([101; 118]%N, (JObj [([116; 97; 103; 103]%N, (JStr [98; 111; 103; 117; 115]%N))])); ([109; 115; 103; 115]%N, (JArr (@nil json)))]).
+Definition v_tag_missing : json := (JObj [([101; 118]%N, (JObj [([116; 97; 103; 103]%N, (JStr [115; 116; 111; 112]%N))])); ([109; 115; 103; 115]%N, (JArr [(JObj [([99]%N, (JObj [([120]%N, (JInt (1)%Z))])); ([116]%N, (JStr [112; 111; 105; 110; 116]%N))])]))]).
+Definition k_Ev : ustring := [69; 118]%N.
+Definition s_Ev : schema := match resolve_ref D_tag k_Ev with Some s => s | None => SBool true end.
+
+Example C05F_tag_in_frag : in_frag_exact Sanitize.ascii_classes D_tag = true.
+Proof. vm_compute. reflexivity. Qed.
+
+Example C05F_tag_convert : convert_doc Sanitize.ascii_classes D_tag = Some T_tag.
+Proof. vm_compute. reflexivity. Qed.
+
+Example C05F_tag_exact : exact_all nore D_tag T_tag (pairs_of D_tag) = true.
+Proof. exact (C05F_convert_exact Sanitize.ascii_classes nore D_tag T_tag C05F_tag_in_frag C05F_tag_convert). Qed.
+
+Example C05F_tag_accepts_valid : de (fun _ _ => true) nore T_tag 20 4%N v_tag_good <> None.
+Proof. vm_compute. discriminate. Qed.
+
+(* an unknown tag value, by the theorem *)
+Example C05F_tag_bogus_rejected : forall f, de nore nore T_tag f 1%N (JObj [([116; 97; 103; 103]%N, JStr [98; 111; 103; 117; 115]%N)]) = None.
+Proof.
+  apply (C05F_fragment_no_bypass Sanitize.ascii_classes nore nore D_tag T_tag C05F_tag_in_frag C05F_tag_convert
+           k_Ev 1%N s_Ev); [vm_compute; left; reflexivity|reflexivity|].
+  eapply V_tag; [reflexivity|vm_compute; reflexivity|eexists; reflexivity|vm_compute; reflexivity].
+Qed.
+
+(* a missing member of a struct content, by evaluation *)
+Example C05F_tag_missing_rejected : de nore nore T_tag 20 4%N v_tag_missing = None.
+Proof. vm_compute. reflexivity. Qed.
+
 (* the side condition: ONE typed branch whose payload is a one-string enum reads as a tagged union keyed on
    the variant name (Check/Exact.v common_tag); the converter makes it an external enum: outside in_frag_exact *)
 Definition D_pin : defs := [([69]%N, (SObj None None None None (mkNumv None None None None None) (mkStrv None None None) ItemsAbsent (@nil schema) None None None false (@nil (ustring * schema)) (@nil ustring) None None None None None (Some [(SObj (Some [TObject]) None None None (mkNumv None None None None None) (mkStrv None None None) ItemsAbsent (@nil schema) None None None false [([98]%N, (SObj (Some [TString]) None (Some [(JStr [107]%N)]) None (mkNumv None None None None None) (mkStrv None None None) ItemsAbsent (@nil schema) None None None false (@nil (ustring * schema)) (@nil ustring) None None None None None None None None None None))] [[98]%N] (Some (SBool false)) None None None None None None None None None)]) None None None None))].
